@@ -14,6 +14,7 @@ package main
 import (
 	"fmt"
 	"net/url"
+	"strings"
 	"sync"
 	"sync/atomic"
 	"testing"
@@ -178,7 +179,7 @@ func c14PasswordLimiter(t *testing.T, rep *verifReport, cfgBurst, cfgRate int, e
 }
 
 func TestVerifC14(t *testing.T) {
-	rep := newVerifReport("C14", "password limiter: three configurations (floors, below-floor values raised to 10 and 1/s, larger) x sequential bursts through every registered route as basic-auth entry point + login form/basic, then 64-way concurrent attempts; conservation and burst+rate bound with harness-bracketed time over a counting backend. TOTP limiter: several users in parallel, wrong guess then correct code inside / outside the 2-second window, 5 and 10 evaluated failures with lock-out observation (limiter state aged instead of waiting an hour); class = (limiter, configuration/entry point or step, outcome)")
+	rep := newVerifReport("C14", "password limiter: three configurations (floors, below-floor values raised to 10 and 1/s, larger) x sequential bursts through every registered route as basic-auth entry point + login form/basic, then 64-way concurrent attempts; conservation and burst+rate bound with harness-bracketed time over a counting backend. TOTP limiter: several users in parallel, wrong guess then correct code inside / outside the 2-second window, a second guess sent while the first is held inside its evaluation (at its profile save, via the interposing SQL driver), 5 and 10 evaluated failures with lock-out observation (limiter state aged instead of waiting an hour); class = (limiter, configuration/entry point or step, outcome)")
 	defer rep.Finish()
 	var wg sync.WaitGroup
 	wg.Add(1)
@@ -194,6 +195,7 @@ func TestVerifC14(t *testing.T) {
 	rep.Floor("pw_backend_calls", 30)
 	rep.Floor("totp_spacing_checked", 3)
 	rep.Floor("totp_lockout_checked", 1)
+	rep.Floor("totp_overlap_checked", 2)
 }
 
 func c14TOTP(t *testing.T, rep *verifReport) {
@@ -326,4 +328,129 @@ func c14TOTP(t *testing.T, rep *verifReport) {
 		}
 	}()
 	wg.Wait()
+	c14TOTPOverlap(rep)
+}
+
+// c14TOTPOverlap: a guess that arrives while another guess for the same user is still being evaluated.  The first
+// (correct) guess is held inside its evaluation - at the profile save that records the used code, an existing
+// suspension point seen through the interposing SQL driver - and a second guess is sent meanwhile.  Both lie inside
+// one 2-second window (harness-bracketed), so the second must not be evaluated: the limiter's failure counter, read at
+// the quiescent point before the first guess is released, must not have moved.
+func c14TOTPOverlap(rep *verifReport) {
+	env, err := verifNewEnv(verifStateOpts{Name: "c14-overlap", AllowedCerts: []string{"TOTP"}, AllowedWebUI: []string{"password"}, EnableTOTP: true,
+		Users: map[string]string{"x": "y"}})
+	if err != nil {
+		rep.Inconc("totp overlap env: %v", err)
+		return
+	}
+	env.SetPasswordChecker(verifPWFunc(func(u string, p []byte) (bool, error) { return string(p) == "pw-"+u, nil }))
+	primary, _, err := env.HookDBs()
+	if err != nil {
+		rep.Inconc("totp overlap: hook: %v", err)
+		return
+	}
+	rounds := 3
+	if verifThorough() {
+		rounds = 12
+	}
+	for i := 0; i < rounds; i++ {
+		name := fmt.Sprintf("ov%d", i)
+		ck, _ := verifLogin(env, name, "pw-"+name)
+		secret, err := verifEnrollTOTP(env, ck)
+		if err != nil {
+			rep.Inconc("totp overlap: enrol: %v", err)
+			return
+		}
+		env.ShiftTOTPLimiter(name, 3*time.Second) // enrolment validated a code: start from a quiet limiter
+		_, fc0, _ := env.TOTPLimiter(name)
+		// two suspension points seen through the interposing SQL driver: the second guess (B) is parked right after its
+		// profile load (before its limiter check); the first, correct guess (A) is parked at the profile save inside
+		// its evaluation (after its limiter check).  B is then released while A is still being evaluated.
+		bLoaded, releaseB := make(chan struct{}, 1), make(chan struct{})
+		aSaving, releaseA := make(chan struct{}, 1), make(chan struct{})
+		var stage int32 = 1
+		verifSQL.SetHook(primary, func(op verifSQLOp) error {
+			t := strings.ToLower(strings.TrimSpace(op.Text))
+			switch {
+			case op.Kind == "rows-closed" && strings.HasPrefix(t, "select profile_data") && atomic.CompareAndSwapInt32(&stage, 1, 2):
+				bLoaded <- struct{}{}
+				<-releaseB
+			case op.IsWrite() && strings.Contains(t, "user_profile") && atomic.CompareAndSwapInt32(&stage, 3, 4):
+				aSaving <- struct{}{}
+				<-releaseA
+			}
+			return nil
+		})
+		post := func(code string) *verifResp {
+			return env.Do(verifReq{Method: "POST", Path: "/api/v0/TOTPAuth", Form: url.Values{"OTP": {code}}, Cookies: verifCk(ck)}.Build())
+		}
+		good := verifTOTPCode(secret, time.Now())
+		bad := "000000"
+		for _, c := range []string{"000000", "000001", "123456", "999999"} {
+			if c != good && c != verifTOTPCode(secret, time.Now().Add(-30*time.Second)) && c != verifTOTPCode(secret, time.Now().Add(30*time.Second)) {
+				bad = c
+				break
+			}
+		}
+		doneA, doneB := make(chan *verifResp, 1), make(chan *verifResp, 1)
+		var relA, relB sync.Once
+		unwind := func(why string) {
+			relB.Do(func() { close(releaseB) })
+			relA.Do(func() { close(releaseA) })
+			verifSQL.SetHook(primary, nil)
+			rep.Count("totp_overlap_not_reached", 1)
+			rep.Obs("totp overlap round %d: %s (not judged)", i, why)
+			time.Sleep(200 * time.Millisecond)
+		}
+		wait := func(c chan struct{}) bool {
+			select {
+			case <-c:
+				return true
+			case <-time.After(20 * time.Second):
+				return false
+			}
+		}
+		go func() { doneB <- post(bad) }()
+		if !wait(bLoaded) {
+			unwind("the second guess never reached its profile load")
+			continue
+		}
+		atomic.StoreInt32(&stage, 3)
+		t0 := time.Now()
+		go func() { doneA <- post(good) }()
+		if !wait(aSaving) {
+			unwind("the first guess never reached its profile save")
+			continue
+		}
+		relB.Do(func() { close(releaseB) })
+		var rb *verifResp
+		select {
+		case rb = <-doneB:
+		case <-time.After(20 * time.Second):
+		}
+		if rb == nil {
+			unwind("the second guess did not return while the first was held")
+			continue
+		}
+		t1 := time.Now()
+		_, fc1, _ := env.TOTPLimiter(name)
+		relA.Do(func() { close(releaseA) })
+		ra := <-doneA
+		verifSQL.SetHook(primary, nil)
+		within := t1.Sub(t0) < 2*time.Second
+		evaluated := fc1 > fc0
+		rep.Eval(fmt.Sprintf("totp|overlap|inside-window=%v|second-evaluated=%v", within, evaluated))
+		c := map[string]interface{}{"user": name, "first_guess_status": ra.Code, "second_guess_status": rb.Code, "failures_before": fc0, "failures_after_second_guess": fc1,
+			"both_inside_ms": t1.Sub(t0).Milliseconds()}
+		if !within {
+			rep.Count("totp_spacing_inconclusive_samples", 1)
+			continue
+		}
+		rep.Count("totp_overlap_checked", 1)
+		if evaluated {
+			rep.Violate("C14/totp/evaluated-while-another-guess-in-flight", "a guess sent while another guess for the same user was still being evaluated (both inside 2 s) was evaluated too", c)
+		} else {
+			rep.Sample("totp-overlap", 1, c)
+		}
+	}
 }
